@@ -44,6 +44,19 @@ def rejects_nonpositive(txt, p):
 
 
 def run(repo, res):
+    res.rule("R35.9", "the internal assertion of the constraint kernel that an edge never joins two fixed nodes in the wrong order is unreachable for valid input: it is control-dependent on `t[child] - t[parent] > 0` with no added slack (tskit guarantees parent time > child time for the input's own sample times, but not by more than min_branch_length)")
+    ck_ = repo.fn("util", "_constrain_ages")
+    from ..base import Defs as _D9, stmts as _st9, bool_guards as _bg9
+
+    d9_ = _D9(ck_)
+    as_ = [(x, g) for x, g in _st9(ck_) if isinstance(x, ast.Assert) and "nodes_fixed" in U(x.test) and any(e == "loop" for e, _ in g)]
+    if not as_:
+        raise AnalysisError("R35.9: the both-fixed assertion of _constrain_ages was not found")
+    for x, g in as_:
+        conds = [U(d9_.inline(e)).replace(" ", "") for e, pol in _bg9(g) if pol]
+        tvar = [a.arg for a in ck_.args.args][0]
+        ok9 = any(c in (f"{tvar}[c]-{tvar}[p]>0", f"{tvar}[c]>{tvar}[p]", f"{tvar}[p]<{tvar}[c]", f"0<{tvar}[c]-{tvar}[p]") for c in conds)
+        res.require(ok9, "R35.9", "util._constrain_ages both-fixed assertion is reachable only for an inverted edge", f"`assert {U(x.test)}` is guarded by {conds}: an edge between two sample nodes whose (valid) branch is shorter than the slack reaches the assertion -> AssertionError for a valid input", repo.loc(ck_, x), str(conds))
     from . import wiring as _w
 
     res.rule("R35.8", "None-defaults of public parameters are replaced through `is None`, never through `param or DEFAULT` (which also swallows an explicit 0 that must be rejected or used)")
@@ -238,7 +251,9 @@ def _handled_by_encloser(repo, f, exc_name):
     return calls > 0
 
 
-VARIANTS = [dict(v, rule="R35.8") for v in __import__("sa.rules.wiring", fromlist=["VARIANTS_FALSY"]).VARIANTS_FALSY] + [dict(v, rule="R35.7") for v in __import__("sa.rules.loopdef", fromlist=["VARIANTS"]).VARIANTS] + [dict(v, rule="R35.6") for v in __import__("sa.rules.wiring", fromlist=["VARIANTS"]).VARIANTS] + [
+VARIANTS = [
+    dict(name="slack-in-ls-violation-test", mod="util", expect="fire", rule="R35.9", old="            adjustment = nodes_time[c] - nodes_time[p]  # + epsilon", new="            adjustment = nodes_time[c] - nodes_time[p] + epsilon"),
+] + [dict(v, rule="R35.8") for v in __import__("sa.rules.wiring", fromlist=["VARIANTS_FALSY"]).VARIANTS_FALSY] + [dict(v, rule="R35.7") for v in __import__("sa.rules.loopdef", fromlist=["VARIANTS"]).VARIANTS] + [dict(v, rule="R35.6") for v in __import__("sa.rules.wiring", fromlist=["VARIANTS"]).VARIANTS] + [
     dict(name="no-rate-guard", mod="core", expect="fire", rule="R35.1",
          old="        if mutation_rate is not None and not mutation_rate > 0.0:\n            raise ValueError(\"Mutation rate must be positive\")\n", new=""),
     dict(name="rate-guard-le", mod="core", expect="fire", rule="R35.1",
